@@ -61,8 +61,9 @@ def main(tier):
         else:
             prog, files = G.Gen7(rnd, depth=3).program()
         G.number_statements(prog)
-        for fp in files.values():          # statements of imported files get their own number range (they are listed elsewhere)
-            c = [100000]
+        for k, fn in enumerate(sorted(files), 1):          # statements of imported files get their own number range (one per file)
+            fp = files[fn]
+            c = [100000 * k]
 
             def f(st, scope):
                 c[0] += 1
@@ -79,7 +80,7 @@ def main(tier):
     obs, p = V.run_harness("asmdrive", cases, "C11-drive")
     if len(obs) != len(cases):
         raise V.ToolError("asmdrive produced %d of %d observations: %s" % (len(obs), len(cases), p.stderr[-2000:]))
-    recs, omap, nok = [], {}, 0
+    recs, omap, nok, nimp = [], {}, 0, [0]
     for o in obs:
         prog, src, bpl, move = progs[o["id"]]
         omap[o["id"]] = o
@@ -107,12 +108,31 @@ def main(tier):
                "srcmap": [{"line": e["line"], "lo": e["lo"], "hi": e["hi"]} for e in o["srcmap"] if e["file"] == "main.asm"],
                "rows": parse_listing(o["listing"].get("main.asm", ""), bpl)}
         recs.append(V.clip_tree(rec))
+        # the listing of every imported file: same program, the statements of that file are the ones with a line
+        for k, fn in enumerate(sorted(files), 1):
+            if fn not in o["listing"]:
+                if any(e["file"] == fn for e in o["srcmap"]):
+                    rep.violations.append({"why": "no listing for imported file %s although it emitted bytes" % fn, "replay": {"program": src, "files": fsrc}, "id": o["id"]})
+                continue
+            fl = {sid: 0 for sid in lmap}
+
+            def g1(st, scope):
+                fl[str(st["n"])] = st["line"]
+            G.walk(files[fn], g1)
+            rid = 2_000_000 + 10 * o["id"] + k
+            recs.append(V.clip_tree(dict(rec, id=rid, lineOf=fl, nlines=len(fsrc[fn].split("\n")), hasVice=False, vice=[],
+                                         srcmap=[{"line": e["line"], "lo": e["lo"], "hi": e["hi"]} for e in o["srcmap"] if e["file"] == fn],
+                                         rows=parse_listing(o["listing"][fn], bpl))))
+            progs[rid] = (prog, src + "\n--- " + fn + " ---\n" + fsrc[fn], bpl, move)
+            pfiles[rid] = pfiles[o["id"]]
+            omap[rid] = {"listing": {fn: o["listing"][fn]}, "srcmap": [e for e in o["srcmap"] if e["file"] == fn]}
+            nimp[0] += 1
     # process level: the .lst files written by `mos build` (listing = true implies macro output attributed to the invocation)
     import subprocess, shutil
     mos = V.build_mos()
     root = V.fresh_dir("C11-proc")
     nproc = 0
-    for rec in [r for r in recs if len(r["prog"]) > 2][:60 if tier == "quick" else 600]:
+    for rec in [r for r in recs if len(r["prog"]) > 2 and r["id"] < 1_000_000][:60 if tier == "quick" else 600]:
         prog, src, bpl, move = progs[rec["id"]]
         d = os.path.join(root, "p%d" % rec["id"])
         os.makedirs(d)
@@ -138,6 +158,7 @@ def main(tier):
         nproc += 1
     shutil.rmtree(root, ignore_errors=True)
     rep.cov["lst_files_from_mos_build"] = nproc
+    rep.cov["listings_of_imported_files"] = nimp[0]
     V.log("[C11] %d programs, %d built and listed" % (len(cases), nok))
     if nok < len(cases) // 10:
         raise V.ToolError("too few generated programs build (%d of %d)" % (nok, len(cases)))
@@ -151,7 +172,7 @@ def main(tier):
     for r in recs[:2]:
         rep.sample({"program": progs[r["id"]][1], "bpl": r["bpl"], "move_macro": r["move"], "rows": r["rows"][:6]})
     rep.assumptions += ["only builds that are fixed points of the reference semantics are judged (C02 decides the others)",
-                        "imports (listings of several files) are not generated yet; listings are obtained in-process through to_listing()"]
+                        "listings of imported files are judged from to_listing() in-process; from `mos build` only main.lst is read"]
     for v in verdicts:
         cid = v["id"]
         rep.verdict(v, {"program": progs[cid][1], "bytes_per_line": progs[cid][2], "move_macro": progs[cid][3], "listing": omap[cid].get("listing"), "srcmap": omap[cid].get("srcmap"), "why": v.get("why")})
